@@ -96,6 +96,7 @@ with np.errstate(all="ignore"):
           and np.all(r[(s > 0) & (s < 1)] >= -46) and np.all(r[s > 1] <= 39), None)
     # constants substituted for libm calls in some harnesses
     check("const tan(pi*1000/48000)", math.tan(math.pi * (1000.0 / 48000.0)) == 0.06554346281523822, math.tan(math.pi * (1000.0 / 48000.0)))
+    check("const 10^(+-6/40), tan(pi*500/48000)", 10.0 ** (6 / 40) == 1.4125375446227544 and 10.0 ** (-6 / 40) == 0.7079457843841379 and math.tan(math.pi * (500.0 * (1.0 / 48000.0))) == 0.032736610412972586, (10.0 ** (6 / 40), 10.0 ** (-6 / 40), math.tan(math.pi * (500.0 * (1.0 / 48000.0)))))
     sc = (np.sin(np.float32(math.pi / 8) * np.float32(0.5)), np.cos(np.float32(math.pi / 8) * np.float32(0.5)))
     check("const sin_cos(pi/16) f32", abs(float(sc[0]) - 0.19509032) < 2e-7 and abs(float(sc[1]) - 0.98078528) < 2e-7, sc)
 
